@@ -70,7 +70,7 @@ def run(rep, tier):
             rep.violation("recorded call violates the set structure of Splitter.tla: %s" % str(small)[:700], payload=ev)
         for s in sample:
             rep.sample(s, limit=2)
-    if not rep.violations and (kinds.get("KFold", 0) < 1000 or kinds.get("Random", 0) < 1000 or kinds.get("Sample", 0) < 100):
+    if not rep.violations and (kinds.get("KFold", 0) < 1000 or kinds.get("Random", 0) < 1000 or kinds.get("Sample", 0) < 100 or kinds.get("BallMap", 0) < 50):
         raise CheckError("splitter driver coverage too small: %s" % kinds)
     rep.add(traces_validated_against_impl=total, records=kinds, seed_stride=stride,
             exhaustive=(stride == 1),
